@@ -1016,6 +1016,10 @@ class ClientRequestBase:
             # - there is no body
             # - the protocol does not have writing paused
             # - we are not waiting for a 100-continue response
+            if self._get_content_length():
+                # The head announces a body that is never sent: the peer
+                # takes whatever comes next for the body of this request.
+                protocol.force_close()
             protocol.start_timeout()
             writer.set_eof()
             task = None
